@@ -4,6 +4,7 @@
     renaming oracle and the correspondence (see the evidence), not by a theorem. *)
 From Coq Require Import List ZArith NArith Bool.
 From RRSS Require Import Base.Outcome Base.Chars Front.Ast Front.Token Exec.Val Exec.Env Exec.Interp Proofs.NameLaws Proofs.RenameSim.
+From RRSS Require Import Front.Token Front.Lexer Proofs.LexKeywords.
 Import ListNotations.
 
 (** the key of a name is its lower-casing, word by word — for every Unicode letter (table facts
@@ -86,6 +87,12 @@ Example C15_example :
   lower_name (Simple [201; 84; 201]%N) = lower_name (Simple [233; 116; 233]%N) /\
   match_keyword (lit "KnOcK") = Some TKnock /\ match_keyword [8490; 110; 111; 99; 107]%N = Some TKnock.
 Proof. vm_compute. repeat split; reflexivity. Qed.
+
+(** keywords are recognised in any case, in whole sources: no word (name) token of a lexed source spells a keyword *)
+Theorem C15_keywords_are_never_names :
+  forall prof src pts, lex prof src = Ok pts ->
+  Forall (fun pt => tid (pt_tok pt) = TWord -> match_keyword (tspell (pt_tok pt)) = None) pts.
+Proof. exact lex_words_are_not_keywords. Qed.
 
 Print Assumptions C15_lower_name_is_fold.
 Print Assumptions C15_rename_invariance.
